@@ -305,7 +305,12 @@ def run_group(g, scratch, tree):
             and not os.environ.get("VERIF_NO_REACH")
             and not [p for p in res["props"] if p["status"] == "FAILURE" and not p["desc"].startswith("canary")]):
         with open(lc) as fh:
-            t2 = re.sub(r'"decreases"\s*:\s*"[^"]*"', '"decreases": "0"', fh.read())
+            j2 = json.load(fh)
+        for fdict in j2.get("functions", []):
+            for loops_ in fdict.values():
+                for l_ in loops_:
+                    l_["decreases"] = "0"
+        t2 = json.dumps(j2, indent=1)
         lc2 = os.path.join(wd, "loops_reach.json")
         with open(lc2, "w") as fh:
             fh.write(t2)
